@@ -98,30 +98,38 @@ def run(ctx: Context, rep) -> None:
             return "stored_truthy"
         return None
 
-    guards = [
-        n for n in cfg.find(lambda n: n.kind == "test") if any(
-            ctx.is_call(we, c, method="close_shard")
-            for st in getattr(n.stmt, "body", [])
-            for c in ast.walk(st))
-    ]
-    if not guards:
-        raise AnalysisError("C11.detect: rollover guard not found")
-    for g in guards:
-        res = {}
-        for differ in (True, False):
-            vals = {"ne": differ, "eq": not differ, "size": False,
-                    "arg_truthy": TRUTHY, "stored_truthy": TRUTHY}
-            v = Valuation(we, atom, vals)
-            res[differ] = v.truth(g.ast)
-            seen = v.seen_atoms
-        ok = res[True] is True and res[False] is False and (
-            {"ne", "eq"} & seen)
-        rep.ob("C11.detect", bool(ok), loc=we.loc(g.ast), where=we.qualname,
-               construct=short(g.ast),
-               message="guard under metadata differ/equal (both non-empty, "
-               f"shard not full) evaluates to {res[True]}/{res[False]}, "
-               "required True/False; comparison atom found: "
-               f"{sorted(seen & {'ne', 'eq'})}")
+    from sa.cfg import CFG
+    from sa.rules.common import reaches
+    CLOSE = f"{FILLER}:_DatasetFillerContext.close_shard"
+    if not cfg.calls(lambda c: reaches(ctx, we, c, CLOSE)):
+        raise AnalysisError("C11.detect: no call reaching close_shard in "
+                            "write_example")
+    res = {}
+    seen: set = set()
+    for differ in (True, False):
+        vals = {"ne": differ, "eq": not differ, "size": False,
+                "arg_truthy": TRUTHY, "stored_truthy": TRUTHY}
+        v = Valuation(we, atom, vals)
+        c2 = CFG(we, oracle=v.truth)
+        closes2 = c2.calls(lambda c: reaches(ctx, we, c, CLOSE))
+        writes2 = [n for n in c2.calls() if isinstance(
+            n.ast.func, ast.Attribute) and n.ast.func.attr == "write" and any(
+                t.qualname == "Shard.write"
+                for t in ctx.internal_targets(we, n.ast))]
+        seen |= v.seen_atoms
+        if differ:
+            missed = c2.always_before(closes2, writes2, normal_only=True)
+            res[differ] = bool(closes2) and not missed
+        else:
+            res[differ] = bool(closes2)
+    ok = res[True] is True and res[False] is False and ({"ne", "eq"} & seen)
+    rep.ob("C11.detect", bool(ok), loc=we.loc(), where=we.qualname,
+           construct="rollover decision under metadata differ / equal "
+           "(both non-empty, shard not full)",
+           message=f"differ -> previous shard closed before the write on "
+           f"every path: {res[True]} (required True); equal -> a close is "
+           f"reachable: {res[False]} (required False); comparison atom "
+           f"found: {sorted(seen & {'ne', 'eq'})}")
 
     # ----------------------------------------------------------------------
     rep.rule(
@@ -130,7 +138,7 @@ def run(ctx: Context, rep) -> None:
         "shard write on every path with non-empty metadata, and targets the "
         "same shard expression the write uses")
     attach_nodes = [n for n in cfg.nodes if n.kind == "stmt" and n.ast in attach]
-    closes = cfg.calls(lambda c: ctx.is_call(we, c, method="close_shard"))
+    closes = cfg.calls(lambda c: reaches(ctx, we, c, CLOSE))
     writes = [
         n for n in cfg.calls() if isinstance(n.ast.func, ast.Attribute) and
         n.ast.func.attr == "write" and any(
